@@ -50,3 +50,58 @@ package keeper
 //@   ensures id: result == "connection-" + dec(next)
 //@   ensures counter: store(ctx) == set(S0, types.KeyNextConnectionSequence, be64((next + 1) % 18446744073709551616))
 //@   ensures only_store: world(ctx) == withKV(old(world(ctx)), k.storeService, store(ctx))
+
+// ---- connection handshake (C13). An end becomes OPEN only from INIT (ack) or TRYOPEN (confirm) and only after the
+// light client verified that the counterparty stored exactly the expected end: same client pair, this chain's
+// prefix, the delay period and the negotiated version.
+
+//@ contract (*Keeper).ConnOpenAck
+//@   let S0 = store(ctx)
+//@   let key = host.ConnectionKey(connectionID)
+//@   let conn = nth(k.GetConnection(ctx, connectionID), 0)
+//@   let found = nth(k.GetConnection(ctx, connectionID), 1)
+//@   let expected = types.NewConnectionEnd(types.TRYOPEN, conn.Counterparty.ClientId, types.NewCounterparty(conn.ClientId, connectionID, commitmenttypes.NewMerklePrefix(k.GetCommitmentPrefix().Bytes())), slice1(version), conn.DelayPeriod)
+//@   modifies world(ctx)
+//@   ensures from_init_only: err == nil ==> found && conn.State == types.INIT
+//@   ensures version_supported: err == nil ==> old(types.IsSupportedVersion(conn.Versions, version))
+//@   ensures counterparty_proven: err == nil ==> LCVerifiedMembership(conn.ClientId, proofHeight, 0, 0, box(commitmenttypes.ApplyPrefix(conn.Counterparty.Prefix, commitmenttypes.NewMerklePath(slice1(host.ConnectionKey(counterpartyConnectionID))))), marshalOf(expected))
+//@   ensures opened: err == nil ==> nth(k.GetConnection(ctx, connectionID), 1) && nth(k.GetConnection(ctx, connectionID), 0).State == types.OPEN && len(nth(k.GetConnection(ctx, connectionID), 0).Versions) == 1 && nth(k.GetConnection(ctx, connectionID), 0).Versions[0] == version && nth(k.GetConnection(ctx, connectionID), 0).Counterparty.ConnectionId == counterpartyConnectionID && nth(k.GetConnection(ctx, connectionID), 0).ClientId == conn.ClientId && nth(k.GetConnection(ctx, connectionID), 0).DelayPeriod == conn.DelayPeriod && nth(k.GetConnection(ctx, connectionID), 0).Counterparty.ClientId == conn.Counterparty.ClientId
+//@   ensures only_this_connection: err == nil ==> exists v string :: world(ctx) == withKV(old(world(ctx)), k.storeService, set(S0, key, v))
+//@   ensures fail_unchanged: err != nil ==> world(ctx) == old(world(ctx))
+
+//@ contract (*Keeper).ConnOpenConfirm
+//@   let S0 = store(ctx)
+//@   let key = host.ConnectionKey(connectionID)
+//@   let conn = nth(k.GetConnection(ctx, connectionID), 0)
+//@   let found = nth(k.GetConnection(ctx, connectionID), 1)
+//@   let expected = types.NewConnectionEnd(types.OPEN, conn.Counterparty.ClientId, types.NewCounterparty(conn.ClientId, connectionID, commitmenttypes.NewMerklePrefix(k.GetCommitmentPrefix().Bytes())), conn.Versions, conn.DelayPeriod)
+//@   modifies world(ctx)
+//@   ensures from_tryopen_only: err == nil ==> found && conn.State == types.TRYOPEN
+//@   ensures counterparty_proven: err == nil ==> LCVerifiedMembership(conn.ClientId, proofHeight, 0, 0, box(commitmenttypes.ApplyPrefix(conn.Counterparty.Prefix, commitmenttypes.NewMerklePath(slice1(host.ConnectionKey(conn.Counterparty.ConnectionId))))), marshalOf(expected))
+//@   ensures opened: err == nil ==> nth(k.GetConnection(ctx, connectionID), 1) && nth(k.GetConnection(ctx, connectionID), 0).State == types.OPEN && nth(k.GetConnection(ctx, connectionID), 0).Versions == conn.Versions && nth(k.GetConnection(ctx, connectionID), 0).Counterparty == conn.Counterparty && nth(k.GetConnection(ctx, connectionID), 0).ClientId == conn.ClientId && nth(k.GetConnection(ctx, connectionID), 0).DelayPeriod == conn.DelayPeriod
+//@   ensures only_this_connection: err == nil ==> exists v string :: world(ctx) == withKV(old(world(ctx)), k.storeService, set(S0, key, v))
+//@   ensures fail_unchanged: err != nil ==> world(ctx) == old(world(ctx))
+
+//@ contract (*Keeper).ConnOpenInit
+//@   let S0 = store(ctx)
+//@   let next = unbe64(get(S0, types.KeyNextConnectionSequence))
+//@   let id = "connection-" + dec(next)
+//@   modifies world(ctx)
+//@   ensures fresh_id: err == nil ==> result0 == id
+//@   ensures client_active: err == nil ==> clientStatus(old(world(ctx)), clientID) == exported.Active
+//@   ensures proposed_version_supported: err == nil && version != nil ==> old(types.IsSupportedVersion(types.GetCompatibleVersions(), version))
+//@   ensures stored_init: err == nil ==> nth(k.GetConnection(ctx, id), 1) && nth(k.GetConnection(ctx, id), 0).State == types.INIT && nth(k.GetConnection(ctx, id), 0).ClientId == clientID && nth(k.GetConnection(ctx, id), 0).Counterparty == counterparty && nth(k.GetConnection(ctx, id), 0).DelayPeriod == delayPeriod
+//@   ensures stored_versions: err == nil && version != nil ==> len(nth(k.GetConnection(ctx, id), 0).Versions) == 1 && nth(k.GetConnection(ctx, id), 0).Versions[0] == version
+
+//@ contract (*Keeper).ConnOpenTry
+//@   let S0 = store(ctx)
+//@   let next = unbe64(get(S0, types.KeyNextConnectionSequence))
+//@   let id = "connection-" + dec(next)
+//@   let picked = nth(types.PickVersion(types.GetCompatibleVersions(), counterpartyVersions), 0)
+//@   let pickErr = nth(types.PickVersion(types.GetCompatibleVersions(), counterpartyVersions), 1)
+//@   let expected = types.NewConnectionEnd(types.INIT, counterparty.ClientId, types.NewCounterparty(clientID, "", commitmenttypes.NewMerklePrefix(k.GetCommitmentPrefix().Bytes())), counterpartyVersions, delayPeriod)
+//@   modifies world(ctx)
+//@   ensures fresh_id: err == nil ==> result0 == id
+//@   ensures version_negotiated: err == nil ==> pickErr == nil
+//@   ensures counterparty_proven: err == nil ==> LCVerifiedMembership(clientID, proofHeight, 0, 0, box(commitmenttypes.ApplyPrefix(counterparty.Prefix, commitmenttypes.NewMerklePath(slice1(host.ConnectionKey(counterparty.ConnectionId))))), marshalOf(expected))
+//@   ensures stored_tryopen: err == nil ==> nth(k.GetConnection(ctx, id), 1) && nth(k.GetConnection(ctx, id), 0).State == types.TRYOPEN && nth(k.GetConnection(ctx, id), 0).ClientId == clientID && nth(k.GetConnection(ctx, id), 0).Counterparty == counterparty && nth(k.GetConnection(ctx, id), 0).DelayPeriod == delayPeriod && len(nth(k.GetConnection(ctx, id), 0).Versions) == 1 && nth(k.GetConnection(ctx, id), 0).Versions[0] == picked
